@@ -300,6 +300,10 @@ def _check_replace(s, ps, stats, case):
         others = [q.replace(annotation=q.empty) for q in ps]      # (so that only the return annotation is evaluated)
         r1 = s.replace(parameters=others, return_annotation='NEWRET').evaluated()
         r2 = s.replace(parameters=others, return_annotation=s.empty).evaluated()
+        back = [q.name for q in r2.parameters.values() if q.annotation is not q.empty]
+        if back:
+            stats.fail('C14/replace/annotation-removed-then-evaluated', dict(case, parameter=back[0]),
+                       '%s: every parameter replaced by .replace(annotation=empty); evaluated() gives %s -- the annotation of %s is back' % (s, r2, back[0]))
         if r1.return_annotation != 'NEWRET' or r2.return_annotation is not s.empty:
             stats.fail('C14/replace/return-annotation-then-evaluated', case,
                        '%s: replace(return_annotation=\'NEWRET\').evaluated() -> %r, replace(return_annotation=empty).evaluated() -> %r' % (
